@@ -11,6 +11,8 @@ use std::io::Write;
 use std::panic::{catch_unwind, AssertUnwindSafe};
 use time::Date;
 
+pub const SIM_PROCESS_TIMEOUT: std::time::Duration = std::time::Duration::from_secs(30);
+
 #[derive(Clone, Debug)]
 pub struct ProcEnv {
     /// Decides the keys of every std HashMap/HashSet in the process.
@@ -79,6 +81,7 @@ where
         w.fs.begin_process(env.knobs.clone(), env.fs_faults.clone());
     });
     let today = env.today;
+    let (done_tx, done_rx) = std::sync::mpsc::channel::<()>();
     let handle = std::thread::Builder::new()
         .name("simproc".into())
         .stack_size(16 << 20)
@@ -89,6 +92,7 @@ where
             let _ = std::io::stdout().flush();
             let _ = std::io::stderr().flush();
             set_in_sim(false);
+            let _ = done_tx.send(());
             r.map_err(|e| {
                 if let Some(s) = e.downcast_ref::<&str>() {
                     s.to_string()
@@ -100,6 +104,11 @@ where
             })
         })
         .expect("spawn simulated process");
+    // A simulated process takes ~0.1 ms. One that has not finished after SIM_PROCESS_TIMEOUT
+    // of real time is hung (the thread cannot be killed, so the OS process reports and exits).
+    if done_rx.recv_timeout(SIM_PROCESS_TIMEOUT).is_err() && !handle.is_finished() {
+        crate::on_simulated_process_hang();
+    }
     let result = match handle.join() {
         Ok(r) => r,
         Err(_) => Err("simulated process thread died".to_string()),
